@@ -20,7 +20,8 @@ TARGET = "x86_64-sysv"
 
 # ----------------------------------------------------------------------------------------------
 # rendering a history as a translation unit
-def decl_text(d, i):
+def decl_text(d, i, sfx=""):
+    d = dict(d, id=d["id"] + sfx)
     sc = {"none": "", "static": "static ", "extern": "extern "}[d["sc"]]
     tls = "_Thread_local " if d["tls"] else ""
     inl = "inline " if d["inl"] else ""
@@ -33,11 +34,13 @@ def decl_text(d, i):
     return "%s%sint %s(int a)%s;" % (sc, inl, d["id"], asm)
 
 
-def use_text(d, i):
+def use_text(d, i, sfx=""):
+    d = dict(d, id=d["id"] + sfx)
     return "%s = %d;" % (d["id"], 1000 + i) if d["kind"] == "obj" else "%s(%d);" % (d["id"], 1000 + i)
 
 
-def render(hist, skip=()):
+def render(hist, skip=(), sfx=""):
+    """sfx: appended to every identifier and scaffolding function (several units in one gcc run)"""
     out, cur = [], []
     for i, d in enumerate(hist, 1):
         p = d["path"]
@@ -48,12 +51,12 @@ def render(hist, skip=()):
             cur.pop()
             out.append("\t" * len(cur) + "}")
         for b in p[k:]:
-            out.append("\t" * len(cur) + ("void g%d(void) {" % b if not cur else "{"))
+            out.append("\t" * len(cur) + ("void g%d%s(void) {" % (b, sfx) if not cur else "{"))
             cur.append(b)
         ind = "\t" * len(cur)
-        out.append(ind + decl_text(d, i))
+        out.append(ind + decl_text(d, i, sfx))
         if i not in skip:
-            out.append(ind + use_text(d, i) if cur else "void u%d(void) { %s }" % (i, use_text(d, i)))
+            out.append(ind + use_text(d, i, sfx) if cur else "void u%d%s(void) { %s }" % (i, sfx, use_text(d, i, sfx)))
     while cur:
         cur.pop()
         out.append("\t" * len(cur) + "}")
@@ -70,7 +73,7 @@ def canon_hist(hist):
 # ----------------------------------------------------------------------------------------------
 # observation: definitions and uses parsed from the IL
 _LOCAL = re.compile(r"^\.L(.*)\.(\d+)$")
-_SCAF = re.compile(r"^[gu]\d+$")
+_SCAF = re.compile(r"^[gu]\d+(_\d+)?$")
 
 
 class Malformed(Exception):
@@ -81,6 +84,18 @@ def observe(il, ids):
     """-> dict(defs=[...in order...], uses={at: use})"""
     mod = ilparse.parse(il)
     defs, uses = [], {}
+
+    def unq(n):     # QBE's quoted-name syntax $"..." (cproc passes the asm string literal through)
+        return n[1:-1] if len(n) >= 2 and n[0] == '"' and n[-1] == '"' else n
+    for d in mod["data"]:
+        d["name"] = unq(d["name"])
+    for f in mod["funcs"]:
+        f["name"] = unq(f["name"])
+        for b in f["blocks"]:
+            for ins in b["insts"]:
+                for a in ins["args"] + ([ins["callee"]] if "callee" in ins else []):
+                    if a["t"] == "glob":
+                        a["n"] = unq(a["n"])
     for kind, idx in mod["order"]:
         if kind == "data":
             d = mod["data"][idx]
@@ -199,6 +214,8 @@ def judge(ctx, objdir, case, variant):
     skip = case["skip"] if variant == "safe" else []
     src = render(hist, skip)
     spec, on, fired = part["spec"], part["on"], part["fired"]
+    if on.get("same"):
+        on = spec
     rc, out, err = vlib.cproc(objdir, src, TARGET)
     canon = canon_hist(hist) + ("" if variant == "safe" else "+uses")
     info = {"history": canon, "source": src, "rc": rc, "stderr": err[-300:], "spec": spec, "model_with_deviations": on, "fired": fired}
@@ -233,6 +250,161 @@ def judge(ctx, objdir, case, variant):
     return ("linkage:unexplained:hist=" + canon, why, info)
 
 
+# ----------------------------------------------------------------------------------------------
+# audit of the specification against gcc (host): never a VIOLATION, only MachineryError
+def gcc_observe(ctx, src, tag):
+    c, o = ctx.path("a%s.c" % tag), ctx.path("a%s.o" % tag)
+    with open(c, "w") as f:
+        f.write(src)
+    p = subprocess.run(["gcc", "-std=c11", "-pedantic-errors", "-O0", "-fno-pic", "-c", c, "-o", o], stdout=subprocess.PIPE, stderr=subprocess.PIPE, text=True)
+    res = {"rc": p.returncode, "err": p.stderr.strip().split("\n")[0][:200] if p.returncode else ""}
+    if p.returncode == 0:
+        nm = subprocess.run(["nm", "-f", "sysv", o], stdout=subprocess.PIPE, text=True).stdout
+        syms = []
+        for ln in nm.splitlines():
+            f = [x.strip() for x in ln.split("|")]
+            if len(f) != 7 or _SCAF.match(f[0]) or f[0] in ("_GLOBAL_OFFSET_TABLE_", "__tls_get_addr"):   # toolchain artefacts of TLS access
+                continue
+            m = re.match(r"^(.*)\.(\d+)$", f[0])
+            block_static = bool(m) and f[2] in "bd" and not f[0].startswith("lbl.")
+            syms.append({"name": f[0], "ident": m.group(1) if block_static else f[0], "blockstatic": block_static, "undef": f[2] == "U",
+                         "export": f[2].isupper() and f[2] != "U", "kind": "func" if f[3] == "FUNC" else "obj",
+                         "thread": f[3] == "TLS", "zero": f[6] in (".bss", ".tbss", "*COM*")})
+        res["syms"] = syms
+    for x in (c, o):
+        if os.path.exists(x):
+            os.unlink(x)
+    return res
+
+
+def audit_compare(spec, g):
+    """spec: Resolve's projection (class ok/error); g: gcc_observe(). -> None or reason"""
+    if spec["cls"] == "error":
+        return None if g["rc"] != 0 else "gcc accepts, spec demands a diagnostic (%s)" % spec["rule"]
+    if g["rc"] != 0:
+        return "gcc rejects (%s), spec accepts" % g["err"]
+    exp_l = sorted((d["sym"], d["kind"], d["export"], d["thread"], d["zero"] if d["kind"] == "obj" else False) for d in spec["defs"] if d["ent"] == 0)
+    got_l = sorted((s["name"], s["kind"], s["export"], s["thread"], s["zero"] if s["kind"] == "obj" else False) for s in g["syms"] if not s["undef"] and not s["blockstatic"])
+    if exp_l != got_l:
+        return "definitions with linkage: spec %s, gcc %s" % (exp_l, got_l)
+    exp_s = sorted((d["id"], d["thread"], d["zero"]) for d in spec["defs"] if d["ent"] != 0)
+    got_s = sorted((s["ident"], s["thread"], s["zero"]) for s in g["syms"] if s["blockstatic"])
+    if exp_s != got_s:
+        return "block-scope statics: spec %s, gcc %s" % (exp_s, got_s)
+    exp_u = undefined_refs_expected(spec)
+    got_u = sorted(s["name"] for s in g["syms"] if s["undef"])
+    if exp_u != got_u:
+        return "undefined references: spec %s, gcc %s" % (exp_u, got_u)
+    return None
+
+
+_GSYM = re.compile(r"^(lbl\.)?([A-Za-z]+)_(\d+)(\.\d+)?$")
+_GERR = re.compile(r"^[^:\n]+:(\d+):\d+: error: (.*)$", re.M)
+
+
+def gcc_batch(ctx, units, tag):
+    """units: list of source texts rendered with sfx "_<k>" (k = position). One gcc run; -> list of gcc_observe()-like dicts."""
+    c, o = ctx.path("b%s.c" % tag), ctx.path("b%s.o" % tag)
+    starts, line = [], 1
+    with open(c, "w") as f:
+        for u in units:
+            starts.append(line)
+            f.write(u)
+            line += u.count("\n")
+    p = subprocess.run(["gcc", "-std=c11", "-pedantic-errors", "-O0", "-fno-pic", "-fmax-errors=0", "-c", c, "-o", o],
+                       stdout=subprocess.PIPE, stderr=subprocess.PIPE, text=True)
+    import bisect
+    res = [{"rc": 0, "err": "", "syms": []} for _ in units]
+    for m in _GERR.finditer(p.stderr):
+        k = bisect.bisect_right(starts, int(m.group(1))) - 1
+        res[k]["rc"] = 1
+        res[k]["err"] = res[k]["err"] or m.group(2)[:160]
+    if p.returncode != 0 and not any(r["rc"] for r in res):
+        raise vlib.MachineryError("gcc failed without a located error: %s" % p.stderr[-800:])
+    if p.returncode == 0:
+        nm = subprocess.run(["nm", "-f", "sysv", o], stdout=subprocess.PIPE, text=True).stdout
+        for ln in nm.splitlines():
+            f = [x.strip() for x in ln.split("|")]
+            if len(f) != 7 or _SCAF.match(f[0]) or f[0] in ("_GLOBAL_OFFSET_TABLE_", "__tls_get_addr"):
+                continue
+            m = _GSYM.match(f[0])
+            if not m:
+                raise vlib.MachineryError("unexpected symbol %r in audit object" % f[0])
+            k = int(m.group(3))
+            block_static = bool(m.group(4)) and f[2] in "bd"
+            name = (m.group(1) or "") + m.group(2) + ("" if block_static else (m.group(4) or ""))
+            res[k]["syms"].append({"name": name, "ident": m.group(2), "blockstatic": block_static, "undef": f[2] == "U",
+                                   "export": f[2].isupper() and f[2] != "U", "kind": "func" if f[3] == "FUNC" else "obj",
+                                   "thread": f[3] == "TLS", "zero": f[6] in (".bss", ".tbss", "*COM*")})
+    for x in (c, o):
+        if os.path.exists(x):
+            os.unlink(x)
+    return res, p.returncode == 0
+
+
+def audit(ctx, cases, label):
+    """Audit Resolve against gcc on every unit whose behaviour is defined. Units gcc must accept are compiled many at a
+    time (identifiers suffixed per unit); a batch in which gcc reports an error yields no object, so its accepted units are
+    re-run without the rejected ones."""
+    jobs = []
+    for c in cases:
+        if c["spec"]["cls"] != "ub":
+            jobs.append((c, c, c["skip"]))
+        if "all" in c and c["all"]["spec"]["cls"] != "ub":
+            jobs.append((c, c["all"], []))
+    why = [None] * len(jobs)
+
+    def run_group(idx, tag):
+        # idx: job indices. returns nothing; fills why[]
+        units = [render(jobs[j][0]["h"], jobs[j][2], "_%d" % k) for k, j in enumerate(idx)]
+        res, linked = gcc_batch(ctx, units, tag)
+        redo = []
+        for k, j in enumerate(idx):
+            spec = jobs[j][1]["spec"]
+            if res[k]["rc"] != 0:
+                why[j] = audit_compare(spec, res[k])
+            elif spec["cls"] == "error":
+                why[j] = audit_compare(spec, res[k])
+            elif linked:
+                why[j] = audit_compare(spec, res[k])
+            else:
+                redo.append(j)
+        return redo
+    expect_err = [j for j, job in enumerate(jobs) if job[1]["spec"]["cls"] == "error"]
+    expect_ok = [j for j, job in enumerate(jobs) if job[1]["spec"]["cls"] != "error"]
+    groups = [("e%d" % g, expect_err[g:g + 60]) for g in range(0, len(expect_err), 60)] + \
+             [("k%d" % g, expect_ok[g:g + 40]) for g in range(0, len(expect_ok), 40)]
+
+    def do(g):
+        tag, idx = g
+        redo = run_group(idx, label + tag)
+        if redo:
+            redo2 = run_group(redo, label + tag + "r")
+            for j in redo2:      # cannot happen: the first pass removed every rejected unit
+                why[j] = "gcc batch inconsistent"
+    vlib.pmap(do, groups, workers=16)
+    bad, nex = [], {}
+    for (c, part, skip), w in zip(jobs, why):
+        if w is None:
+            continue
+        ex = c.get("aex", [])
+        if ex:
+            for e in ex:
+                nex[e] = nex.get(e, 0) + 1
+            continue
+        # confirm alone before blaming the specification
+        w1 = audit_compare(part["spec"], gcc_observe(ctx, render(c["h"], skip), "solo%d" % len(bad)))
+        if w1 is not None:
+            bad.append((canon_hist(c["h"]), w1, render(c["h"], skip)))
+    a = ctx.cov.setdefault("audit", {"units": 0, "exceptions_used": {}})
+    a["units"] += len(jobs)
+    for e, k in nex.items():
+        a["exceptions_used"][e] = a["exceptions_used"].get(e, 0) + k
+    if bad:
+        raise vlib.MachineryError("SPEC-AUDIT: Linkage.tla disagrees with gcc -std=c11 -pedantic-errors on %d units outside audit_exceptions, e.g.\n%s" % (
+            len(bad), "\n".join("%s: %s\n%s" % b for b in bad[:12])))
+
+
 def flow_a(ctx, objdir, cases, label):
     jobs = []
     for c in cases:
@@ -254,17 +426,250 @@ def flow_a(ctx, objdir, cases, label):
     return nviol
 
 
+# ----------------------------------------------------------------------------------------------
+# flow B: H6 (+ H8 open/close/put) events of real compilations -> Trace_Linkage.tla
+SC = {0: "none", 4: "extern", 8: "static", 64: "none", 68: "extern", 72: "static"}
+LINK = {0: "none", 1: "int", 2: "ext"}
+STOR = {0: "static", 1: "thread", 2: "auto"}
+DEF = {0: "none", 1: "init", 2: "body"}
+
+
+def trace_events(raw, ok):
+    """ndjson text of one execution -> list of events for Trace_Linkage (pointers renumbered, scopes as paths)."""
+    evs = [json.loads(ln) for ln in raw.splitlines() if ln.strip()]
+    mine = {e["d"] for e in evs if e["e"] == "decl"}
+    paths, nblk, out, dnum = {}, 0, [], {}
+    for e in evs:
+        k = e["e"]
+        if k == "open":
+            if e["p"] not in paths:
+                if paths:
+                    raise vlib.MachineryError("trace: scope %s opened under unknown parent %s" % (e["s"], e["p"]))
+                paths[e["p"]] = []          # the file scope is static: first seen as a parent
+            nblk += 1
+            paths[e["s"]] = paths[e["p"]] + [nblk]
+        elif k == "close":
+            paths.pop(e["s"], None)
+        elif k == "put":
+            if e.get("ns") != "decl" or e["id"] in mine:
+                continue
+            if e["s"] not in paths:
+                if paths:
+                    raise vlib.MachineryError("trace: put into unknown scope")
+                paths[e["s"]] = []          # builtins are put into the file scope before any open
+            out.append({"e": "other", "name": e["name"], "path": paths[e["s"]]})
+        elif k == "decl":
+            if e["s"] not in paths:
+                if any(p == [] for p in paths.values()):
+                    raise vlib.MachineryError("trace: decl in unknown scope")
+                paths[e["s"]] = []
+            d = dnum.setdefault(e["d"], len(dnum) + 1)
+            out.append({"e": "decl", "name": e["name"], "path": paths[e["s"]], "kind": e["kind"], "sc": SC[e["sc"] & ~0x32],
+                        "tls": bool(e["sc"] & 64), "inl": bool(e["inl"]), "asm": bool(e["asm"]), "prior": bool(e["prior"]),
+                        "link": LINK[e["link"]], "d": d})
+        elif k == "tent":
+            out.append({"e": "tent", "d": dnum[e["d"]]})
+        elif k == "def":
+            if e["d"] not in mine:
+                continue                    # string literals, compound literals, __func__
+            out.append({"e": "def", "d": dnum[e["d"]], "name": e["name"], "kind": e["kind"], "export": bool(e["export"]),
+                        "thread": bool(e["thread"]), "lid": e["lid"] != 0, "asm": bool(e["asm"])})
+        elif k == "declend":
+            out.append({"e": "declend", "d": dnum[e["d"]], "def": DEF[e["def"]], "defined": bool(e["defined"]),
+                        "tent": bool(e["tent"]), "inldef": bool(e["inldef"]), "stor": STOR[e["stor"]]})
+        elif k == "eot":
+            out.append({"e": "eot"})
+    out.append({"e": "Reset", "ok": bool(ok)})
+    return out
+
+
+def run_traced(ctx, hooks, n, src=None, path=None, target=TARGET):
+    tr = ctx.path("t%d.ndjson" % n)
+    if os.path.exists(tr):
+        os.unlink(tr)
+    rc, out, err = vlib.cproc(hooks, src, target, trace=tr, path=path)
+    raw = open(tr).read() if os.path.exists(tr) else ""
+    if os.path.exists(tr):
+        os.unlink(tr)
+    if rc not in (0, 1):
+        return None
+    return trace_events(raw, rc == 0)
+
+
+def validate_traces(ctx, batches, label):
+    """batches: list of (name, events). One TLC run per chunk; on rejection bisect to the execution."""
+    def tlc_on(chunk, tag):
+        f = ctx.path("trace_%s.ndjson" % tag)
+        with open(f, "w") as fh:
+            for _, evs in chunk:
+                for e in evs:
+                    fh.write(json.dumps(e) + "\n")
+        r = ctx.tlc("Trace_Linkage", "Trace_Linkage.cfg", workers=1, env={"TRACE": f}, timeout=1200, collect="REJECT ")
+        os.unlink(f)
+        return r
+    nev = ndecl = 0
+    for ci in range(0, len(batches), 400):
+        chunk = batches[ci:ci + 400]
+        r = tlc_on(chunk, "%s%d" % (label, ci))
+        if r.rc == 0:
+            nev += sum(len(e) for _, e in chunk)
+            ndecl += sum(1 for _, evs in chunk for e in evs if e["e"] == "decl")
+            ctx.validated(len(chunk))
+            continue
+        if not r.rejected:
+            raise vlib.MachineryError("Trace_Linkage failed: %s" % r.out[-2000:])
+        # find the first rejected execution
+        for name, evs in chunk:
+            r1 = tlc_on([(name, evs)], "one")
+            if r1.rc != 0:
+                rej = r1.vcases[0] if r1.vcases else r1.out[-500:]
+                ctx.violation("linkage:trace:" + name, "H6 trace of a real compilation is not a behaviour of the decl.c model: %s" % rej[:600],
+                              {"execution": name, "rejected_at": rej, "events": evs[:400]})
+                break
+        else:
+            raise vlib.MachineryError("trace chunk rejected but every execution accepted alone")
+    return nev, ndecl
+
+
+def private_build(ctx, flavour):
+    """vlib.build() evicts older builds of a flavour when /repo changes (other engineers commit hooks while this check
+    runs): keep a private copy of the binary for the duration of the run."""
+    import shutil
+    for attempt in range(5):
+        try:
+            src = vlib.build(flavour)
+            dst = ctx.path("bin-" + flavour)
+            os.makedirs(dst, exist_ok=True)
+            shutil.copy2(os.path.join(src, "cproc-qbe"), os.path.join(dst, "cproc-qbe"))
+            return dst
+        except (OSError, vlib.MachineryError):
+            if attempt == 4:
+                raise
+            import time
+            time.sleep(3)
+
+
+def flow_b(ctx, extra_units):
+    hooks = private_build(ctx, "hooks")
+    jobs = []
+    for n, c in enumerate(sorted(glob.glob(os.path.join(vlib.REPO, "test", "*.c")))):
+        name = c[:-2]
+        if not os.path.exists(name + ".qbe"):
+            continue
+        arch = name.rsplit("+", 1)[1] if "+" in os.path.basename(name) else TARGET
+        jobs.append(("test/" + os.path.basename(c), None, c, arch))
+    for n, (name, src) in enumerate(extra_units):
+        jobs.append((name, src, None, TARGET))
+
+    def one(j):
+        idx, (name, src, path, arch) = j
+        return name, run_traced(ctx, hooks, idx, src=src, path=path, target=arch)
+    res = vlib.pmap(one, list(enumerate(jobs)), workers=16)
+    batches = [(name, evs) for name, evs in res if evs is not None]
+    nev, ndecl = validate_traces(ctx, batches, "b")
+    ctx.cov["flow_b"] = {"executions": len(batches), "events": nev, "declcommon_decisions": ndecl}
+
+
+EXPECTED_RULES = {"6.7.1p3-block-thread-local", "6.7.1p7-block-function-storage-class", "6.7.9p5-block-linkage-initializer",
+                  "6.7p3-no-linkage-redeclared", "6.7.1p3-thread-local-mismatch", "6.9p3-internal-redefined",
+                  "6.9p3-internal-used-undefined", "6.2.2p7", "6.9p5", "6.7.4p7"}
+EXPECTED_DEVS = {"ExternInheritsNoLinkage", "ThreadNoTentative", "ThreadMismatchNotDiagnosed", "InlineLateExternal", "NoUsedInternalUndefDiag"}
+
+
+def stream(ctx, objdir, cfg, label, stats, simulate=None, depth=None, audit_every=1, workers=8, keep_units=0, timeout=3000):
+    """Run TLC on Linkage.tla/cfg; judge the emitted cases against the binary (and gcc) in chunks while TLC is running."""
+    import queue, threading
+    q = queue.Queue(maxsize=3)
+    seen = set()
+    err = []
+    kept = []
+
+    def consumer():
+        while True:
+            chunk = q.get()
+            if chunk is None:
+                return
+            if err:
+                continue
+            try:
+                flow_a(ctx, objdir, chunk, label)
+                aud = chunk if audit_every == 1 else chunk[::audit_every]
+                audit(ctx, aud, label + str(stats["chunks"]))
+                stats["chunks"] += 1
+                for c in chunk:
+                    parts = [c] + ([c["all"]] if "all" in c else [])
+                    for part in parts:
+                        stats["classes"][part["spec"]["cls"]] = stats["classes"].get(part["spec"]["cls"], 0) + 1
+                        if "rule" in part["spec"]:
+                            stats["rules"].add(part["spec"]["rule"])
+                        stats["devs"].update(part["fired"])
+                if keep_units and len(kept) < keep_units:
+                    for c in chunk[::max(1, len(chunk) // 40)]:
+                        if c["spec"]["cls"] != "ub":
+                            kept.append(("unit:" + canon_hist(c["h"]), render(c["h"], c["skip"])))
+                if len(ctx.cov["samples"]) < 5:
+                    for c in chunk:
+                        if len(c["h"]) >= 2 and c["spec"]["cls"] == "ok" and c["spec"]["ndefs"] >= 1 and ctx.rng.random() < 0.02:
+                            ctx.sample({"history": canon_hist(c["h"]), "unit": render(c["h"], c["skip"]), "Resolve": c.get("sum"),
+                                        "expected_definitions": c["spec"]["defs"], "expected_uses": c["spec"]["uses"]})
+                            break
+            except Exception as ex:       # surfaced in the main thread
+                err.append(ex)
+
+    th = threading.Thread(target=consumer, daemon=True)
+    th.start()
+    buf = []
+
+    def on_line(payload):
+        c = json.loads(payload)
+        key = vlib.sha(json.dumps(c["h"], sort_keys=True))[:20]
+        if key in seen:
+            return
+        seen.add(key)
+        buf.append(c)
+        if len(buf) >= 3000:
+            q.put(list(buf))
+            buf.clear()
+    try:
+        r = ctx.tlc("Linkage", cfg, workers=workers, timeout=timeout, simulate=simulate, depth=depth, on_line=on_line, heap="3g")
+    finally:
+        if buf:
+            q.put(list(buf))
+        q.put(None)
+        th.join()
+    if err:
+        raise err[0]
+    if not r.ok:
+        raise vlib.MachineryError("model Linkage/%s rejected (rc=%d): a design-level invariant failed:\n%s" % (cfg, r.rc, r.out[-5000:]))
+    if not simulate and len(seen) > r.distinct - 1:
+        raise vlib.MachineryError("more VCASE lines than states: %d vs %d" % (len(seen), r.distinct))
+    stats["cases"] += len(seen)
+    return r, kept
+
+
 def run(ctx):
     ctx.cov["rule"] = ("TLC enumerates every history of <= MaxLen declarations of one identifier over 24 file-scope and 12 "
-                       "block-scope declaration forms x scope placements (function bodies, one nested block); each is rendered "
-                       "as a unit with a use after every declaration and compiled; non-trivial = history of >= 2 declarations "
-                       "whose behaviour is defined")
-    objdir = vlib.build("plain")
-    cfg = "MC_Linkage_quick.cfg" if ctx.quick else "MC_Linkage_thorough.cfg"
-    r = ctx.tlc_must_pass("Linkage", cfg, workers=8, timeout=1500)
-    cases = [json.loads(v) for v in r.vcases]
-    if len(cases) != r.distinct - 1:
-        raise vlib.MachineryError("expected one VCASE per non-initial state: %d vs %d" % (len(cases), r.distinct))
-    flow_a(ctx, objdir, cases, "exhaustive")
-    for c in cases[len(cases) // 3::max(1, len(cases) // 4)][:4]:
-        ctx.sample({"history": canon_hist(c["h"]), "unit": render(c["h"], c["skip"]), "Resolve": c["sum"], "class": c["spec"]["cls"]})
+                       "block-scope declaration forms x scope placements (function bodies, one nested block, fresh or continued), "
+                       "plus variants with __asm__ labels / object-function mixes, plus random 3-identifier histories (-simulate); "
+                       "each is rendered as a unit with a use after every declaration, compiled by cproc-qbe and by gcc (audit); "
+                       "non-trivial = history of >= 2 declarations whose behaviour C11 defines")
+    objdir = private_build(ctx, "plain")
+    stats = {"chunks": 0, "cases": 0, "classes": {}, "rules": set(), "devs": set()}
+    q = ctx.quick
+    # A. bounded-exhaustive, one identifier
+    r, units = stream(ctx, objdir, "MC_Linkage_quick.cfg" if q else "MC_Linkage_thorough.cfg", "x", stats, keep_units=200 if q else 800,
+                      workers=8 if q else 16, audit_every=1 if q else 4)
+    # B. the same with __asm__ labels and object/function mixes
+    stream(ctx, objdir, "MC_Linkage_mix_quick.cfg" if q else "MC_Linkage_mix_thorough.cfg", "m", stats, workers=8 if q else 16)
+    # C. random multi-identifier units
+    r3, units3 = stream(ctx, objdir, "MC_Linkage_sim.cfg", "s", stats, simulate=1 if q else 40, depth=12, keep_units=100 if q else 400, workers=4 if q else 8)   # num is per worker; TLC checks (and so emits) every generated successor
+    # vacuity guard: every rule of the specification and every named deviation occurred
+    missing = (EXPECTED_RULES - stats["rules"]) | (EXPECTED_DEVS - stats["devs"])
+    ctx.cov["classes"] = stats["classes"]
+    ctx.cov["rules_exercised"] = sorted(stats["rules"])
+    ctx.cov["deviations_exercised"] = sorted(stats["devs"])
+    if missing:
+        raise vlib.MachineryError("vacuity guard: never exercised: %s" % sorted(missing))
+    # D. flow B
+    flow_b(ctx, units + units3)
+    ctx.cov["exhaustive"] = True
